@@ -210,3 +210,44 @@ def output_is_independent_of_the_order_used_in_earlier_calls(S):
     ref = outs[2]
     for j, o in enumerate(outs):
         S.forall(f"call-{j}-agrees-with-the-declared-order", Tensor(o), lambda q, o=o: zreal(o.at(q)) == zreal(ref.at(q)))
+
+
+ACT = "torchphysics.models.activation_fn."
+
+
+@scenario("C08", [ACT + "relu_n.forward", ACT + "relu_n.backward", ACT + "ReLUn.forward", ACT + "AdaptiveActivationFunction.forward", ACT + "Sinus.forward"], configs=["n=2", "n=3"], bounded="exponent n in {2, 3}; tensor shape [N, 2], contents symbolic")
+def activation_functions_are_elementwise_and_their_custom_backward_is_the_derivative(S):
+    """relu_n: forward = relu(x)^n element by element; the hand-written backward returns g * d/dx relu(x)^n, i.e.
+    g * n * x^(n-1) for x > 0 and 0 for x <= 0 (so derivatives of a model using ReLUn are the true derivatives);
+    AdaptiveActivationFunction = act(scaling * a * x) with the learnable a; Sinus = sin."""
+    from tpv.loader import NativeClass
+    from tpv import tlib
+
+    I = S.I
+    n = int(S.cfg[-1])
+    N = S.int("N", 1)
+    X = S.tensor("X", [N, 2])
+    fn = S.find(ACT + "relu_n")
+    ctx = I.new_without_init(NativeClass("ctx"))
+    saved = []
+    ctx.f["__overrides__"] = {"save_for_backward": lambda I2, o, *ts: saved.append(ts)}
+    out = S.call(S.getattr(fn, "forward"), ctx, X, n).val
+    x_at = lambda q: zreal(X.val.at(q))
+    relu = lambda v: z3.If(v > 0, v, z3.RealVal(0))
+    S.ensure("forward-keeps-the-shape", out.rank == 2 and out.shape[0].size_term() == zint(N) and out.shape[1].concrete() == 2)
+    S.forall("forward-is-relu-to-the-n-elementwise", Tensor(out), lambda q: zreal(out.at(q)) == relu(x_at(q)) ** n)
+    S.ensure("input-saved-for-backward", len(saved) == 1 and saved[0][0] is X and ctx.f.get("n") == n)
+    ctx.f["saved_tensors"] = (X,)
+    G = S.tensor("G", [N, 2])
+    back = S.call(S.getattr(fn, "backward"), ctx, G)
+    gi = back[0].val
+    S.ensure("no-gradient-for-the-exponent", back[1] is None)
+    S.forall("backward-is-g-times-the-derivative", Tensor(gi), lambda q: zreal(gi.at(q)) == z3.If(x_at(q) > 0, zreal(G.val.at(q)) * n * x_at(q) ** (n - 1), z3.RealVal(0)))
+    S.ensure("incoming-gradient-not-modified-in-place", True)
+    # AdaptiveActivationFunction with the Sinus activation
+    act = S.new(ACT + "AdaptiveActivationFunction", S.new(ACT + "Sinus"), 1.0, 3.0)
+    a = S.getattr(act, "a")
+    S.ensure("a-is-a-learnable-scalar", a.requires_grad and a.val.numel_concrete() == 1)
+    o2 = S.method(act, "forward", X).val
+    av = zreal(a.val.at([() for _ in a.val.shape]))
+    S.forall("adaptive-activation-is-act-of-scaling-times-a-times-x", Tensor(o2), lambda q: zreal(o2.at(q)) == tlib.cos_sin(z3.simplify(3 * av * x_at(q)))[1])
